@@ -405,6 +405,51 @@ def run(F, rep):
                    site=site_of(f, t), key="C04-D8 | %s | %s" % (k, c.rsplit("::", 1)[-1]))
     rep.floor("C04-D8", nz, 1, "zstd compression calls in the pooled compressor")
 
+    # ------------------------------------------------------------ D10: per-thread state other than the compression context
+    # Which work items a thread handles, and in which order, is the schedule.  A thread_local buffer may be reused only if
+    # nothing a previous item left in it can reach the bytes handed on.  Decided by evaluation of the segment-compression
+    # layer: the same segment, compressed once with a clean and once with a used buffer, must give the same bytes.
+    import layerint
+    from rules import c12
+    keys = layerint.tls_keys(F)
+    ntls = 0
+    for k, f in sorted(F.funcs.items()):
+        root = k.split("::{closure", 1)[0]
+        if root not in reach and k not in reach:
+            continue
+        for bi, t in f.calls():
+            if t.get("indirect") or not re.search(r"thread::local::LocalKey::<T>::\w+$", t["callee"]):
+                continue
+            ntls += 1
+            key = layerint.tls_key_of_operand(F, f, t["args"][0]) if t["args"] else None
+            payload = keys.get(key, "?")
+            inst = "thread-local %s (%s) used by %s" % ((key or "?").rsplit("::", 1)[-1], payload, k.split("::", 1)[-1])
+            okey = "C04-D10 | %s | %s" % (k, key)
+            if key is None:
+                rep.ob("C04-D10", inst + ": the key is resolved", False, site=site_of(f, t), key=okey)
+                continue
+            if re.search(r"zstd(_safe)?::[CD]Ctx\b", payload):
+                rep.ob("C04-D10", inst + " is a compression context (what survives in it is decided by D8)", True, how="trivial", site=site_of(f, t), key=okey)
+                continue
+            if getattr(F, "cfg", "dev") != "dev":
+                continue
+            clean, undec, used = c12.layer_eval(F, tls_init={key: []})
+            diffs = []
+            for dirty in ([0xAA] * 40, [0x55] * 2, [0x11] * 5):
+                if undec:
+                    break
+                res2, undec, used2 = c12.layer_eval(F, tls_init={key: dirty})
+                used |= used2
+                for x, (m, b, u) in res2.items():
+                    if (m, b) != clean[x][:2]:
+                        diffs.append("%s compresses to %s after a fresh buffer and to %s after a buffer holding %d x 0x%02X" % (list(x), clean[x][1], b, len(dirty), dirty[0]))
+            ok = undec is None and not diffs and key in used
+            rep.ob("C04-D10", inst + ": the bytes produced do not depend on what an earlier work item of the same thread left in it", ok,
+                   detail=("undecidable construct: %s" % undec) if undec else (diffs[0] + " (%d differences)" % len(diffs) if diffs else
+                           ("%d segments evaluated with 4 initial buffer states" % len(clean) if key in used else "the layer evaluation never reaches this thread-local: not decided")),
+                   site=site_of(f, t), key=okey)
+    rep.floor("C04-D10", ntls, 1, "uses of thread_local keys in the compression path (the ZSTD compression context)")
+
     # ------------------------------------------------------------ D6
     ntok = 0
     for k in sorted(reach):
